@@ -8,3 +8,6 @@ package ssh
 
 // verifFilterKexAlgos is a no-op unless built with the "verif" tag.
 func verifFilterKexAlgos(c *Config, algos []string) []string { return algos }
+
+// verifHSTrace is a no-op unless built with the "verif" tag.
+func verifHSTrace(t *handshakeTransport, ev string, p []byte) {}
